@@ -107,6 +107,52 @@ def run_case(ctx, case, c):
         if not ok:
             ctx.oracle_fail("writer", _pub(case), f"statement does not round-trip: written {x}, parsed {y}", eq)
             return
+    # the reader of the round-trip theorem (Model/Reader.read3, extracted) on the text the implementation wrote:
+    # it must read what libqasm + the OpenSquirrel parser read (c2) and keep the comments of the circuit
+    rd = case.get("_read")
+    # (comments spanning several lines are outside the reader theorem's hypotheses — stmt_ok asks no_nl — and stay with
+    # the oracle above)
+    if rd is not None and not any(type(s).__name__ == "Comment" and "\n" in s.str for s in c.ir.statements):
+        rv = ser.canon(rd[1])
+        if rv[0] != "some":
+            ctx.disagree("reader", _pub(case), f"the verified reader refuses a text that libqasm accepts\n{text}")
+        else:
+            def unstr(v):
+                if isinstance(v, tuple) and len(v) == 2 and v[0] == "str":
+                    return v[1]
+                if isinstance(v, list):
+                    return [unstr(x) for x in v]
+                return v
+            ver, rnq, rnb, rlines = unstr(rv[1])
+            want_comments = [s.str for s in c.ir.statements if type(s).__name__ == "Comment"]
+            got_comments = [l[1] for l in rlines if l[0] == "comment"]
+            body_lines = [l for l in rlines if l[0] != "comment"]
+            okr = (ver == "3.0" and int(rnq) == c2.qubit_register_size and int(rnb) == c2.bit_register_size
+                   and got_comments == want_comments and len(body_lines) == len(b))
+            why = "header / comments / number of lines"
+            if okr:
+                for l, y in zip(body_lines, b):
+                    cls, name, qs, bit, params = y
+                    if l[0] == "assign":
+                        good = cls == "Measure" and int(l[1]) == bit and l[2] == name and [int(l[3])] == qs
+                    elif l[0] == "gate":
+                        good = cls != "Measure" and l[1] == name and [int(q) for q in l[3]] == qs and len(l[2]) == len(params)
+                        if good:
+                            for ra, (k2, v2) in zip(l[2], params):
+                                if ra[0] == "int":
+                                    good = good and k2 == "i" and int(ra[1]) == v2
+                                elif ra[0] == "lit":
+                                    fv = float(ra[1])
+                                    good = good and k2 == "f" and abs(fv - float(v2)) <= 1e-15 * max(1.0, abs(fv))
+                                else:
+                                    good = False
+                    else:
+                        good = False
+                    if not good:
+                        okr, why = False, f"line {l} vs parsed statement {y}"
+                        break
+            if not okr:
+                ctx.disagree("reader", _pub(case), f"the verified reader and libqasm read the written text differently: {why}\n{text}")
     # hence the same operation (to 8 digits)
     if c.qubit_register_size <= 5:
         # parameters agree to 8 significant digits: an angle theta may move by 5e-8 * |theta|
@@ -144,9 +190,12 @@ def run(ctx):
         circuits.append(gen.build_circuit(1, 0, cases[-1]["specs"]))
     reqs = [["write3", c.qubit_register_size, c.bit_register_size, ser.ser_stmts(c.ir.statements)] for c in circuits]
     mres = model.call_many(reqs)
+    rres = model.call_many([["read3", str(c)] for c in circuits])
     ctx.suite("writer", cases=len(cases))
-    for case, c, mr in zip(cases, circuits, mres):
+    ctx.suite("reader_vs_libqasm", cases=len(cases))
+    for case, c, mr, rr in zip(cases, circuits, mres, rres):
         case["_mres"] = [mr]
+        case["_read"] = rr
         ctx.bump("pre_" + ("+".join(p[0] for p in case["pre"]) or "fresh"))
         run_case(ctx, case, c)
     ctx.sample(_pub(cases[0]))
@@ -160,5 +209,6 @@ def replay(ctx, payload):
 
     tc.apply_pre(random.Random(0), c, case.get("pre", []))
     case["_mres"] = model.call_many([["write3", c.qubit_register_size, c.bit_register_size, ser.ser_stmts(c.ir.statements)]])
+    case["_read"] = model.call_many([["read3", str(c)]])[0]
     run_case(ctx, case, c)
     return {"text": str(c), "oracle_failures": ctx.oracle_failures, "fails": bool(ctx.oracle_failures)}
